@@ -72,6 +72,8 @@ def check(ctx, idx):
         kws["fit_intercept"] = False
     if ncls == 2 and rng.random() < 0.3:
         kws["precompute"] = rng.choice([True, False])
+    if ncls > 2 and rng.random() < 0.35:
+        alpha = ("near_max", rng.choice([0.5, 0.6, 0.75, 0.9, 0.97, 1.05]))      # a penalty just below / above the value that zeroes every row
     run_case(ctx, idx, X, y, ncls, bk, nm, alpha, kws, custom_U)
 
 
@@ -80,6 +82,27 @@ def run_case(ctx, idx, X, y, ncls, bk, nm, alpha, kws, custom_U):
     rng = ctx.rng
     nf = X.shape[1]
     centred = kws.get("fit_intercept", True)
+    if isinstance(alpha, (tuple, list)):
+        # resolve "near_max": the smallest penalty for which the all-zero matrix is optimal is max_j ‖(Ψcᵀ Wc)_j‖₂ / r
+        try:
+            if custom_U is not None:
+                from pysensors.basis import Custom
+                pm = SSPOC(basis=Custom(custom_U.copy(), n_basis_modes=nm).fit(), l1_penalty=0.1, n_sensors=min(2, nf))
+                pm.fit(X.copy(), y.copy(), quiet=True, refit=False, prefit_basis=True, **{k: v for k, v in kws.items() if k != "prefit_basis"})
+            else:
+                pm = SSPOC(basis=models.make_basis(bk, nm), l1_penalty=0.1, n_sensors=min(2, nf))
+                pm.fit(X.copy(), y.copy(), quiet=True, refit=False, **kws)
+            Psi0 = np.asarray(pm.basis_matrix_inverse_); W0 = np.squeeze(pm.classifier.coef_).T
+            Xc0 = Psi0 - Psi0.mean(axis=0) if centred else Psi0
+            Wc0 = W0 - W0.mean(axis=0) if centred else W0
+            amax = float(np.max(np.sqrt(np.sum((Xc0.T @ Wc0) ** 2, axis=1)))) / Psi0.shape[0]
+        except Exception:
+            amax = 0.0
+        if not amax > 0:
+            ctx.count("near_max_unresolved")
+            return
+        ctx.count("l1_penalty_near_alpha_max(×%s)" % alpha[1])
+        alpha = float(alpha[1]) * amax
     base = {"X": X.tolist(), "y": y.tolist(), "basis": bk, "n_modes": nm, "l1_penalty": alpha, "index": idx,
             "fit_kwargs": dict(kws)}
     ctx.evaluations += 1
